@@ -148,8 +148,9 @@ theorem cursVia_lookup {fix : CPos → CPos} {d d' : Db K V} (h : CursVia fix d 
 /-! ### 3. histories -/
 
 /-- Any history of mutations — `iwkv_put`, `iwkv_del`, `iwkv_cursor_set` / `iwkv_cursor_del` through
-    any cursor id (the tracked cursor `c` included), and arbitrary repositionings of the *other*
-    cursors — run from a valid chain on which cursor `c` stands at a usable position `p`.
+    any cursor id (the tracked cursor `c` included), and arbitrary repositionings (NEXT, PREV, anything
+    else) of the *other* cursors — run from a valid chain on which cursor `c` stands at a usable
+    position `p`.
     At the end the chain is valid, cursor `c` stands at a usable position `p'`, and for what NEXT
     has yet to return (`aheadN`) as well as for what PREV has yet to return (`aheadP`):
 
@@ -165,7 +166,7 @@ theorem cursVia_lookup {fix : CPos → CPos} {d d' : Db K V} (h : CursVia fix d 
       returns it in key order, each record once. -/
 theorem history_keeps_cursor [DecidableEq K] (st : StrictTotal gt) (d : Db K V) (inv : NodeInv gt d.nodes)
     (c : Nat) (p : CPos) (hc : curPos d c = some p) (hp : CurOk d.nodes p) (ms : List (Mut K V))
-    (hmv : ∀ m ∈ ms, ∀ q, m ≠ .move c q) :
+    (hmv : ∀ m ∈ ms, repositions c m = false) :
     let d' := runMut gt d ms
     NodeInv gt d'.nodes ∧
     ∃ p', curPos d' c = some p' ∧ CurOk d'.nodes p' ∧
@@ -185,7 +186,7 @@ theorem history_keeps_cursor [DecidableEq K] (st : StrictTotal gt) (d : Db K V) 
 /-- The same, spelled out for the forward direction without the `StepFacts` bundle. -/
 theorem history_forward [DecidableEq K] (st : StrictTotal gt) (d : Db K V) (inv : NodeInv gt d.nodes)
     (c : Nat) (p : CPos) (hc : curPos d c = some p) (hp : CurOk d.nodes p) (ms : List (Mut K V))
-    (hmv : ∀ m ∈ ms, ∀ q, m ≠ .move c q) :
+    (hmv : ∀ m ∈ ms, repositions c m = false) :
     ∃ p', curPos (runMut gt d ms) c = some p' ∧ CurOk (runMut gt d ms).nodes p' ∧
       (((aheadN d.nodes p).map (·.1)).filter (fun k => decide (k ∉ runDel gt d ms))).Sublist
         ((aheadN (runMut gt d ms).nodes p').map (·.1)) ∧
@@ -199,6 +200,85 @@ theorem history_forward [DecidableEq K] (st : StrictTotal gt) (d : Db K V) (inv 
   obtain ⟨inv', p', hc', hp', hN, _, hdead, _, _⟩ := history_keeps_cursor st d inv c p hc hp ms hmv
   exact ⟨p', hc', hp', hN.surv, hN.orig, hN.same, fun k hk r hr => hdead k hk r (Or.inl hr),
     (scan_from (runMut gt d ms) inv' p' hp').1⟩
+
+/-- The property as worded: cursor `c` continues its scan with NEXT calls interleaved, in any way,
+    with mutations through the database and through any cursor (itself included) and with
+    arbitrary moves of the other cursors. Let `R = runRet gt c d ms` be the records handed to it
+    along the way and `aheadN d'.nodes p'` what the NEXT calls after the history will still return
+    (`scan_from`). Then for everything the scan returns, `R ++ aheadN d'.nodes p'`, against what lay
+    ahead when it started:
+
+    * `surv`: every key that lay ahead and was not removed by the history is returned, in the same
+      relative order — nothing that existed throughout is skipped;
+    * `orig`: everything returned, except keys the history put, lay ahead at the start and comes in
+      the same relative order; since what lay ahead is strictly descending, these come in key order
+      and without repetition;
+    * `same`: the returned records whose key the history did not touch are exactly the untouched
+      records that lay ahead, values included;
+    * (`returned_is_live`) each record was live in the store when it was handed over — never a
+      deleted one. -/
+theorem scan_through_history [DecidableEq K] (st : StrictTotal gt) (d : Db K V) (inv : NodeInv gt d.nodes)
+    (c : Nat) (p : CPos) (hc : curPos d c = some p) (hp : CurOk d.nodes p) (ms : List (Mut K V))
+    (hmv : ∀ m ∈ ms, repositions c m = true → m = .next c) :
+    let d' := runMut gt d ms
+    NodeInv gt d'.nodes ∧
+    ∃ p', curPos d' c = some p' ∧ CurOk d'.nodes p' ∧
+      StepFacts (aheadN d.nodes p) (runRet gt c d ms ++ aheadN d'.nodes p')
+        (runDel gt d ms) (runPut ms) (runTouch gt d ms) ∧
+      scan d' (curNext d') ((aheadN d'.nodes p').length + 1) p' = ((aheadN d'.nodes p').map some, true) ∧
+      Desc gt (aheadN d.nodes p) := by
+  intro d'
+  obtain ⟨inv', p', hc', hp', hN⟩ := run_scanN st c ms d p inv hc hp hmv
+  exact ⟨inv', p', hc', hp', hN, (scan_from d' inv' p' hp').1, aheadN_desc inv.2 p⟩
+
+/-- … and backwards: cursor `c` continues with PREV calls; what it is handed, `R`, it gets from the
+    back of `aheadP`, so the whole backward scan returns `(aheadP d'.nodes p' ++ R.reverse).reverse`. -/
+theorem scan_back_through_history [DecidableEq K] (st : StrictTotal gt) (d : Db K V) (inv : NodeInv gt d.nodes)
+    (c : Nat) (p : CPos) (hc : curPos d c = some p) (hp : CurOk d.nodes p) (ms : List (Mut K V))
+    (hmv : ∀ m ∈ ms, repositions c m = true → m = .prev c) :
+    let d' := runMut gt d ms
+    NodeInv gt d'.nodes ∧
+    ∃ p', curPos d' c = some p' ∧ CurOk d'.nodes p' ∧
+      StepFacts (aheadP d.nodes p) (aheadP d'.nodes p' ++ (runRet gt c d ms).reverse)
+        (runDel gt d ms) (runPut ms) (runTouch gt d ms) ∧
+      scan d' (curPrev d') ((aheadP d'.nodes p').length + 1) p' = ((aheadP d'.nodes p').reverse.map some, true) ∧
+      Desc gt (aheadP d.nodes p) := by
+  intro d'
+  obtain ⟨inv', p', hc', hp', hP⟩ := run_scanP st c ms d p inv hc hp hmv
+  exact ⟨inv', p', hc', hp', hP, (scan_back_from d' inv' p' hp').1, aheadP_desc inv.2 p⟩
+
+/-- whatever a NEXT / PREV hands to a cursor is a live record of the store at that moment -/
+theorem returned_is_live (c : Nat) (d : Db K V) (m : Mut K V) (r : K × V) (h : retOf c d m = some r) :
+    r ∈ flatten d.nodes :=
+  ret_live h
+
+/-- Consequence spelled out: a record that lay ahead of the cursor and whose key no mutation of the
+    history touched is returned by the scan exactly once, and the untouched records come in strictly
+    descending key order. -/
+theorem untouched_once [DecidableEq K] (st : StrictTotal gt) (d : Db K V) (inv : NodeInv gt d.nodes)
+    (c : Nat) (p : CPos) (hc : curPos d c = some p) (hp : CurOk d.nodes p) (ms : List (Mut K V))
+    (hmv : ∀ m ∈ ms, repositions c m = true → m = .next c) :
+    ∃ p', curPos (runMut gt d ms) c = some p' ∧
+      (runRet gt c d ms ++ aheadN (runMut gt d ms).nodes p').filter (keyNotIn (runTouch gt d ms)) =
+        (aheadN d.nodes p).filter (keyNotIn (runTouch gt d ms)) ∧
+      Desc gt ((runRet gt c d ms ++ aheadN (runMut gt d ms).nodes p').filter (keyNotIn (runTouch gt d ms))) ∧
+      ∀ r ∈ aheadN d.nodes p, r.1 ∉ runTouch gt d ms →
+        ((runRet gt c d ms ++ aheadN (runMut gt d ms).nodes p').map (·.1)).count r.1 = 1 := by
+  obtain ⟨_, p', hc', _, hN, _, hd⟩ := scan_through_history st d inv c p hc hp ms hmv
+  refine ⟨p', hc', hN.same, ?_, ?_⟩
+  · rw [hN.same]; exact List.Pairwise.sublist List.filter_sublist hd
+  · intro r hr ht
+    have hnd : (((aheadN d.nodes p).filter (keyNotIn (runTouch gt d ms))).map (·.1)).Nodup := by
+      refine List.Pairwise.map _ ?_ (List.Pairwise.sublist List.filter_sublist hd)
+      intro a b hab e
+      exact st.ne_of_gt hab e
+    have hP : notIn (runTouch gt d ms) r.1 = true := by simpa [notIn] using ht
+    have hP' : keyNotIn (runTouch gt d ms) r = true := by simpa [keyNotIn] using ht
+    have hmem : r.1 ∈ ((aheadN d.nodes p).filter (keyNotIn (runTouch gt d ms))).map (·.1) :=
+      List.mem_map.2 ⟨r, List.mem_filter.2 ⟨hr, hP'⟩, rfl⟩
+    have h1 := hnd.count (a := r.1)
+    rw [if_pos hmem, ← hN.same, map_fst_filter, List.count_filter hP] at h1
+    exact h1
 
 end
 
@@ -215,12 +295,31 @@ example : ∃ p', curPos (runMut natGt exDb9 [.put 8 80 0, .del 7, .cdel 1, .put
     CurOk (runMut natGt exDb9 [.put 8 80 0, .del 7, .cdel 1, .put 3 30 0, .cset 1 41, .move 2 (.at 0 0 0)]).nodes p' := by
   obtain ⟨p', h1, h2, _⟩ := history_forward natGt_strictTotal exDb9 exDb9_inv 1 _ rfl exDb9_curOk
     [.put 8 80 0, .del 7, .cdel 1, .put 3 30 0, .cset 1 41, .move 2 (.at 0 0 0)]
-    (by intro m hm q e; subst e; simp at hm)
+    (by decide)
   exact ⟨p', h1, h2⟩
 
 example : let d' := runMut natGt exDb9 [.put 8 80 0, .del 7, .cdel 1, .put 3 30 0, .cset 1 41, .move 2 (.at 0 0 0)]
     curPos d' 1 = some (.at 0 0 (-1)) ∧ aheadN d'.nodes (.at 0 0 (-1)) = [(4, 40), (3, 30)] ∧
     runDel natGt exDb9 [.put 8 80 0, .del 7, .cdel 1, .put 3 30 0, .cset 1 41, .move 2 (.at 0 0 0)] = [7, 8] := by
+  decide
+
+/-- cursor 1 scans on with NEXT while records are put and deleted around it, through the database,
+    through itself and while cursor 2 is moved about -/
+example : ∃ p', curPos (runMut natGt exDb9 [.put 8 80 0, .put 5 50 0, .next 1, .del 4, .cdel 1, .put 3 30 0, .put 6 60 0,
+      .next 1, .move 2 (.at 0 0 0)]) 1 = some p' := by
+  obtain ⟨_, p', h1, _⟩ := scan_through_history natGt_strictTotal exDb9 exDb9_inv 1 _ rfl exDb9_curOk
+    [.put 8 80 0, .put 5 50 0, .next 1, .del 4, .cdel 1, .put 3 30 0, .put 6 60 0, .next 1, .move 2 (.at 0 0 0)]
+    (by
+      intro m hm
+      simp only [List.mem_cons, List.not_mem_nil, or_false] at hm
+      rcases hm with rfl | rfl | rfl | rfl | rfl | rfl | rfl | rfl | rfl <;> simp [repositions])
+  exact ⟨p', h1⟩
+
+example : let ms : List (Mut Nat Nat) := [.put 8 80 0, .put 5 50 0, .next 1, .del 4, .cdel 1, .put 3 30 0, .put 6 60 0,
+      .next 1, .move 2 (.at 0 0 0)]
+    runRet natGt 1 exDb9 ms = [(5, 50), (6, 60)] ∧ curPos (runMut natGt exDb9 ms) 1 = some (.at 0 3 0) ∧
+    aheadN (runMut natGt exDb9 ms).nodes (.at 0 3 0) = [(3, 30)] ∧ aheadN exDb9.nodes (.at 0 1 0) = [(4, 40)] ∧
+    runDel natGt exDb9 ms = [4, 5] := by
   decide
 
 /-- Finding F38 on the model: cursor 1 stands on key 7 and deletes it (last slot of its node, so
